@@ -15,5 +15,6 @@ func moreGens() []struct {
 		{"Safety.v", genSafety},       // C03
 		{"DeclHash.v", genDeclHash},   // C13, C15
 		{"NodeReset.v", genNodeReset}, // C12
+		{"NodeOps.v", genNodeOps},     // C12
 	}
 }
